@@ -75,6 +75,12 @@ func main() {
 			}
 		}
 		os.Exit(core.WorkerMain(p, *tier, *seed, *shard, *n, *out, *trace, *deadline, skip))
+	case "aux":
+		// auxiliary entry points registered by properties: reference observations that must come from a FRESH process
+		if len(os.Args) < 3 || core.Aux[os.Args[2]] == nil {
+			usage()
+		}
+		os.Exit(core.Aux[os.Args[2]](os.Args[3:]))
 	default:
 		usage()
 	}
